@@ -31,6 +31,9 @@ from .repo import Repo
 
 BUILDER_REL = "src/pest/grammar/codegen/builder.py"
 
+_LIST_METHODS = ("append", "insert", "extend", "pop", "remove", "reverse", "clear", "index", "count", "copy")
+
+
 class Opaque:
     """A value unknown at analysis time (a runtime property of the grammar)."""
 
@@ -352,8 +355,12 @@ class GenWalker:
             return Opaque(src, _ATTR_TYPES.get(attr))
         if isinstance(base, str) and attr in ("upper", "lower", "replace", "join", "format"):
             return _Bound(base, attr)
-        if isinstance(base, (list, tuple)) and attr in ("append",):
+        if isinstance(base, (list, tuple)) and attr in _LIST_METHODS:
             return _Bound(base, attr)
+        if isinstance(base, (list, tuple)):
+            # a method of a concrete list that this walk does not model: skipping it would lose what it does to the
+            # lines the template goes on to write
+            raise AnalysisError(f"{self.construct}: list method {src} is not modelled")
         return Opaque(src)
 
     def compare(self, node: ast.Compare, env: dict) -> object:
@@ -498,9 +505,13 @@ class GenWalker:
                 if isinstance(res, str) and (isinstance(base, Param) or any(isinstance(a, Param) for a in args)):
                     return Param(res)
                 return res
-            if isinstance(base, list) and attr == "append":
-                base.append(args[0])
-                return None
+            if isinstance(base, (list, tuple)) and attr in _LIST_METHODS:
+                if kwargs:
+                    raise AnalysisError(f"{self.construct}: list method with keyword arguments: {ast.unparse(node)[:60]}")
+                try:
+                    return getattr(base, attr)(*args)
+                except (AttributeError, IndexError, ValueError, TypeError) as err:
+                    raise AnalysisError(f"{self.construct}: {ast.unparse(node)[:60]}: {type(err).__name__}") from err
             if attr == "generate":
                 return self.generate_call(base, args, node)
             if isinstance(base, Obj) and base.cls and base is env.get("self") and attr not in ("build_optimized_pattern", "tag_str", "__str__", "_pattern", "children", "with_children"):
